@@ -41,6 +41,27 @@ pub fn worker_main(thorough: bool) {
     }
 }
 
+/// CPU time (user + system, all threads) consumed so far by a child process,
+/// in milliseconds, from /proc/<pid>/stat. The run budget is measured in CPU
+/// time of the worker, not in wall time: a VM pause, a snapshot of the sandbox
+/// or a heavily loaded machine must never look like a hanging run (this
+/// happened once: a `timeout` alarm on a 9 ms run while the sandbox was being
+/// copied). The library cannot block without burning CPU (no I/O, no locks,
+/// no sleeps), so a hang is a busy loop and CPU time sees it.
+fn child_cpu_ms(pid: u32) -> Option<u64> {
+    let stat = std::fs::read_to_string(format!("/proc/{}/stat", pid)).ok()?;
+    let rest = &stat[stat.rfind(')')? + 1..];
+    let f: Vec<&str> = rest.split_whitespace().collect();
+    let utime: u64 = f.get(11)?.parse().ok()?;
+    let stime: u64 = f.get(12)?.parse().ok()?;
+    // clock ticks: 100 per second on Linux (USER_HZ)
+    Some((utime + stime) * 10)
+}
+
+const RUN_FLAG: u64 = 1 << 63;
+/// wall-clock backstop per spec (something that does not burn CPU)
+const WALL_BACKSTOP_MS: u64 = 30 * 60 * 1000;
+
 struct Worker {
     child: Arc<Mutex<Child>>,
     stdin: ChildStdin,
@@ -101,8 +122,12 @@ where
     // which phase the worker is in: the run budget applies to the run-thread
     // phase only; building inputs and evaluating oracles get a separate,
     // generous budget (a slow builder must never become a `timeout` alarm)
-    let in_run: Vec<AtomicBool> = (0..workers).map(|_| AtomicBool::new(false)).collect();
+    // busy[w]: 0 = idle, else (child CPU ms at the start of the current phase + 1)
+    // with RUN_FLAG set while the run thread is active - one atomic, so that the
+    // watchdog can never combine the clock of one phase with the budget of another
     let builder_budget_ms: u64 = 300_000;
+    let pids: Vec<AtomicU64> = (0..workers).map(|_| AtomicU64::new(0)).collect();
+    let wall_start: Vec<AtomicU64> = (0..workers).map(|_| AtomicU64::new(0)).collect();
     let children: Vec<Mutex<Option<Arc<Mutex<Child>>>>> = (0..workers).map(|_| Mutex::new(None)).collect();
     let done = AtomicBool::new(false);
 
@@ -113,9 +138,21 @@ where
                 std::thread::sleep(Duration::from_millis(100));
                 let now = t0.elapsed().as_millis() as u64 + 1;
                 for w in 0..workers {
-                    let since = busy[w].load(Ordering::SeqCst);
-                    let budget = if in_run[w].load(Ordering::SeqCst) { cfg.run_budget.as_millis() as u64 } else { builder_budget_ms };
-                    if since != 0 && now.saturating_sub(since) > budget {
+                    let v = busy[w].load(Ordering::SeqCst);
+                    if v == 0 {
+                        continue;
+                    }
+                    let running = v & RUN_FLAG != 0;
+                    let since = v & !RUN_FLAG;
+                    let budget = if running { cfg.run_budget.as_millis() as u64 } else { builder_budget_ms };
+                    let pid = pids[w].load(Ordering::SeqCst) as u32;
+                    let cpu_over = match child_cpu_ms(pid) {
+                        Some(cpu) => (cpu + 1).saturating_sub(since) > budget,
+                        None => false,
+                    };
+                    let ws = wall_start[w].load(Ordering::SeqCst);
+                    let wall_over = ws != 0 && now.saturating_sub(ws) > WALL_BACKSTOP_MS;
+                    if (cpu_over || wall_over) && busy[w].load(Ordering::SeqCst) == v {
                         if let Some(ch) = children[w].lock().unwrap().as_ref() {
                             killed[w].store(true, Ordering::SeqCst);
                             let _ = ch.lock().unwrap().kill();
@@ -133,11 +170,14 @@ where
         });
         let mut handles = vec![];
         for w in 0..workers {
-            let (next, stop, sink, busy, killed, children, in_run) = (&next, &stop, &sink, &busy, &killed, &children, &in_run);
+            let (next, stop, sink, busy, killed, children, pids, wall_start) = (&next, &stop, &sink, &busy, &killed, &children, &pids, &wall_start);
             let (issued, completed, deaths, timeouts) = (&issued, &completed, &deaths, &timeouts);
             handles.push(scope.spawn(move || {
                 let mut worker = spawn_worker(cfg.thorough);
                 *children[w].lock().unwrap() = Some(worker.child.clone());
+                let mut pid = worker.child.lock().unwrap().id();
+                pids[w].store(pid as u64, Ordering::SeqCst);
+                let cpu_now = |pid: u32| child_cpu_ms(pid).unwrap_or(0) + 1;
                 'outer: loop {
                     if stop.load(Ordering::SeqCst) {
                         break;
@@ -153,8 +193,8 @@ where
                         let spec = &specs[pos];
                         issued.fetch_add(1, Ordering::SeqCst);
                         let line = spec.to_json().to_string();
-                        in_run[w].store(false, Ordering::SeqCst);
-                        busy[w].store(t0.elapsed().as_millis() as u64 + 1, Ordering::SeqCst);
+                        wall_start[w].store(t0.elapsed().as_millis() as u64 + 1, Ordering::SeqCst);
+                        busy[w].store(cpu_now(pid), Ordering::SeqCst);
                         let sent = writeln!(worker.stdin, "{}", line).and_then(|_| worker.stdin.flush());
                         let mut resp = String::new();
                         let mut in_run_phase = false;
@@ -164,15 +204,12 @@ where
                                 let n = worker.stdout.read_line(&mut resp).unwrap_or(0);
                                 if n > 0 && resp.trim() == "P" {
                                     in_run_phase = true;
-                                    // order matters for the watchdog: new clock first, then the tighter budget
-                                    busy[w].store(t0.elapsed().as_millis() as u64 + 1, Ordering::SeqCst);
-                                    in_run[w].store(true, Ordering::SeqCst);
+                                    busy[w].store(cpu_now(pid) | RUN_FLAG, Ordering::SeqCst);
                                     continue;
                                 }
                                 if n > 0 && resp.trim() == "Q" {
                                     in_run_phase = false;
-                                    in_run[w].store(false, Ordering::SeqCst);
-                                    busy[w].store(t0.elapsed().as_millis() as u64 + 1, Ordering::SeqCst);
+                                    busy[w].store(cpu_now(pid), Ordering::SeqCst);
                                     continue;
                                 }
                                 break n;
@@ -181,6 +218,7 @@ where
                             0
                         };
                         busy[w].store(0, Ordering::SeqCst);
+                        wall_start[w].store(0, Ordering::SeqCst);
                         let rec = if got == 0 {
                             // worker died while executing this spec
                             let was_killed = killed[w].swap(false, Ordering::SeqCst);
@@ -188,12 +226,14 @@ where
                             deaths.fetch_add(1, Ordering::SeqCst);
                             let (class, detail) = if was_killed {
                                 timeouts.fetch_add(1, Ordering::SeqCst);
-                                ("timeout".to_string(), if in_run_phase { format!("run exceeded the wall budget of {} s", cfg.run_budget.as_secs()) } else { "builder phase exceeded 300 s".to_string() })
+                                ("timeout".to_string(), if in_run_phase { format!("run exceeded the budget of {} s CPU time", cfg.run_budget.as_secs()) } else { "builder phase exceeded 300 s CPU time".to_string() })
                             } else {
                                 ("abort".to_string(), format!("worker process died: {:?}", status))
                             };
                             worker = spawn_worker(cfg.thorough);
                             *children[w].lock().unwrap() = Some(worker.child.clone());
+                            pid = worker.child.lock().unwrap().id();
+                            pids[w].store(pid as u64, Ordering::SeqCst);
                             if in_run_phase {
                                 Record {
                                     idx: spec.idx,
